@@ -54,7 +54,17 @@ func c18a(c *Ctx) {
 			switch x := in.(type) {
 			case *ssa.Panic:
 				nPanic++
-				if fk != "(*lexer.Lexer).readChar" {
+				inReadChar := fk == "(*lexer.Lexer).readChar"
+				if rcf := c.Fn("lexer.Lexer.readChar"); rcf != nil && !inReadChar {
+					// ... or a private helper of readChar (the decoding step under its own name): judged
+					// by the same guard, in the helper's own terms
+					for _, m := range c.unitOf(rcf) {
+						if m.fn == fn {
+							inReadChar = true
+						}
+					}
+				}
+				if !inReadChar {
 					c.Bad(fk+"/panic", c.W.Pos(x.Pos()), "explicit panic in "+fk+": an input could crash the compiler")
 					return
 				}
